@@ -1,3 +1,3 @@
-OPEN "pre.txt" FOR RANDOM AS #2 LEN = 4
-FIELD #2, 4 AS F2$
-NAME "a.txt" AS "b.txt"
+OPEN "pre.txt" FOR OUTPUT AS #1
+PRINT #1, "p" + CHR$(200) + "q"
+NAME "b.txt" AS "a.txt"
